@@ -43,6 +43,7 @@ func fail(format string, a ...interface{}) {
 }
 
 type Pipeline struct {
+	DetViolations []FoundViolation // violations met while re-executing runs in the determinism self-test
 	Prop    string
 	Tier    string
 	Seed    uint64
